@@ -9,12 +9,24 @@ use crate::plan::Plan;
 use crate::res;
 
 pub fn summarise(plan: &Plan, repeats: usize) -> Value {
-    let mut b = match build_plan(plan, pool(0, 1), &BuildOpts::default()) {
+    let opts = BuildOpts {
+        capture_debug: true,
+        ..BuildOpts::default()
+    };
+    let mut b = match build_plan(plan, pool(0, 1), &opts) {
         Ok(b) => b,
         Err(e) => return json!({ "error": e }),
     };
     let layouts = serde_json::to_value(&*b.layouts).unwrap_or(Value::Null);
-    let mut out = json!({ "layouts": layouts });
+    let printed: std::collections::BTreeMap<String, String> = b
+        .ctx
+        .debug_texts
+        .lock()
+        .unwrap()
+        .iter()
+        .map(|(k, v)| (k.to_string(), v.clone().unwrap_or_else(|e| format!("PANIC: {}", e))))
+        .collect();
+    let mut out = json!({ "layouts": layouts, "printed": printed });
     for (key, entry) in [("seq", Entry::SeqTl), ("dispatch", Entry::Dispatch)] {
         // the parallel build only reports the sequential reference here
         if cfg!(feature = "par") && key == "dispatch" {
